@@ -550,7 +550,9 @@ func (g *routerGen) headerPairs() []*Sx {
 		}
 		used[n] = true
 		var ast *Sx
-		switch rng.Intn(4) {
+		switch rng.Intn(5) {
+		case 4:
+			ast = T("opt", T("lit", X("v"))) // an expression that also matches the empty string: the value must still be non-empty
 		case 0:
 			ast = T("lit", X("v"))
 		case 1:
